@@ -111,6 +111,7 @@ class Frame:
         self.m = m
         self.items = items      # full list of the frame: protected prefix + active part
         self.prot = 0
+        self.note = None        # mechanism note attached to the next event (e.g. MAP over an empty collection)
 
     # stack primitives relative to the protected offset
     def push(self, t, v):
@@ -134,7 +135,8 @@ class Frame:
 
     def event(self, prim):
         if self.m.record:
-            self.m.events.append((prim, list(self.items)))
+            self.m.events.append((prim, list(self.items), self.note))
+        self.note = None
 
     def instr(self, ins):
         self.m.steps[0] += 1
@@ -280,10 +282,25 @@ class Frame:
             rt = nt
             out.append((x[0], nv) if t[0] == 'map' else nv)
         if rt is None:
-            rt = self.m.static_map_result_type(a[0], t, self) if hasattr(self.m, 'static_map_result_type') else None
-            if rt is None:
-                raise Unsupported('MAP over an empty collection: result type needs static typing')
+            rt = self.probe_map_body(a[0], t)
+            self.note = 'empty-collection'
         self.push((t[0], t[1], rt) if t[0] == 'map' else ('list', rt), out)
+
+    def probe_map_body(self, body, t):
+        """Result type of a MAP body when the collection is empty: the body is run once on a default element in a
+        scratch frame (types do not depend on values in well-typed code); nothing is recorded."""
+        et = T.pair(t[1], t[2]) if t[0] == 'map' else t[1]
+        try:
+            dv = default_value(et)
+        except KeyError:
+            raise Unsupported('MAP over an empty collection of %s' % T.show(et))
+        sub = Machine(self.m.env, record=False, max_steps=2000)
+        fr = Frame(sub, [(et, dv)] + list(self.items[self.prot:]))
+        try:
+            fr.seq(body)
+        except (Failwith, RuntimeFail, StepLimit, ModelError, Unsupported):
+            raise Unsupported('MAP over an empty collection: body result type not derivable by probing')
+        return fr.items[0][0]
 
     def i_LAMBDA(self, a, ins):
         self.push(T.lambda_(ty(a[0]), ty(a[1])), a[2])
@@ -859,6 +876,41 @@ class Frame:
         t, v = self.pop()
         ensure(t == T.list_(T.pair(T.G1, T.G2)), 'PAIRING_CHECK type')
         self.push(T.BOOL, bls.pairing_check(v))
+
+
+def default_value(t):
+    p = t[0]
+    if p == 'unit':
+        return ()
+    if p == 'bool':
+        return False
+    if p in ('int', 'nat', 'mutez', 'timestamp', 'bls12_381_fr'):
+        return 0
+    if p == 'string':
+        return ''
+    if p == 'bytes':
+        return b''
+    if p == 'chain_id':
+        return bytes(4)
+    if p == 'key_hash':
+        return bytes(21)
+    if p == 'key':
+        return bytes(33)
+    if p == 'signature':
+        return bytes(64)
+    if p == 'address':
+        return (bytes(22), '')
+    if p == 'pair':
+        return (default_value(t[1]), default_value(t[2]))
+    if p == 'option':
+        return None
+    if p == 'or':
+        return ('L', default_value(t[1]))
+    if p in ('list', 'set', 'map', 'big_map'):
+        return []
+    if p == 'lambda':
+        return [{'prim': 'FAILWITH'}]
+    raise KeyError(p)
 
 
 def run(code, stack, env=None, record=True, max_steps=20000):
